@@ -346,7 +346,8 @@ def gen(rng, maxcycles):
     for _ in range(n):
         if rng.random() < p and total < 30000:
             r = rng.random()
-            ln = 1 if r < 0.1 else 22 if r < 0.2 else 23 if r < 0.25 else 44 if r < 0.3 else 100 if r < 0.35 else rng.randrange(1, 101)
+            ln = (1 if r < 0.1 else 22 if r < 0.2 else 23 if r < 0.25 else 44 if r < 0.3 else 100 if r < 0.35
+                  else rng.randrange(1, 22) if r < 0.65 else rng.randrange(1, 101))
             total += ln
             writes.append(bytes(rng.randrange(256) for _ in range(ln)).hex())
         else:
